@@ -3,7 +3,8 @@
 Hierarchy for C13:  Base <- Mid <- Leaf ;  Other ;  diamond  DA <- DB1, DB2 <- DD.
 Family ontology for C15/C16 (rule interplay the university model lacks):
    ancestor_of is transitive, has the inverse descendant_of and is a sub-property of related_to (plain) ;
-   knows (list) has the inverse known_by (set).
+   knows (list) has the inverse known_by (set) ; best_friend_of is a sub-property of friend_of which is a sub-property of
+   knows, and no class has a friend_of field (a skipped level of the hierarchy).
 """
 from __future__ import annotations
 
@@ -64,6 +65,8 @@ class FPerson(Symbol):
     descendant_of: List[FPerson] = field(default_factory=list)
     knows: List[FPerson] = field(default_factory=list)
     known_by: Set[FPerson] = field(default_factory=set)
+    best_friend_of: List[FPerson] = field(default_factory=list)
+    mentor_of: List[FPerson] = field(default_factory=list)
 
 
 @dataclass
@@ -99,10 +102,32 @@ class Knows(PropertyDescriptor, HasInverseProperty):
         return KnownBy
 
 
+@dataclass
+class FriendOf(Knows):
+    """An intermediate level of the property hierarchy for which no class has a field."""
+
+
+@dataclass
+class BestFriendOf(FriendOf):
+    pass
+
+
+@dataclass
+class GuideOf(RelatedTo):
+    """An intermediate level without a field anywhere (and, unlike FriendOf, without an inverse to fall back on)."""
+
+
+@dataclass
+class MentorOf(GuideOf):
+    pass
+
+
 FPerson.related_to = RelatedTo(FPerson, "related_to")
 FPerson.ancestor_of = AncestorOf(FPerson, "ancestor_of")
 FPerson.descendant_of = DescendantOf(FPerson, "descendant_of")
 FPerson.knows = Knows(FPerson, "knows")
 FPerson.known_by = KnownBy(FPerson, "known_by")
+FPerson.best_friend_of = BestFriendOf(FPerson, "best_friend_of")
+FPerson.mentor_of = MentorOf(FPerson, "mentor_of")
 
 HIER = {"Base": Base, "Mid": Mid, "Leaf": Leaf, "Other": Other, "DA": DA, "DB1": DB1, "DB2": DB2, "DD": DD}
